@@ -21,7 +21,7 @@ from ..consteval import Folder, Regex
 from ..tables import Atom, canon
 from .. import rx, tables
 from . import c18_rx
-from .c18_rows import Row, Eff, build, compare, param_names, _Sub
+from .c18_rows import Row, Eff, Normal, build, compare, param_names, _Sub
 
 MTEST = 'mesonbuild/mtest.py'
 PARSER = 'TAPParser'
@@ -39,7 +39,7 @@ EXPLANATION = (
     'line forms denoted by the regex constants (group roles from the regex structure, specification samples, pairwise disjoint), '
     'parse/parse_async pass every line then exactly one EOF; R3 per-row effect shapes num_tests+1 once, last_test := last_test+1 '
     'if the number group is None else int(group), highest_test := max(highest_test, new last_test), beyond-plan test is '
-    'plan.num_tests < new last_test, lineno+1 once; R4 int() fed by a capture group whose language is an unbounded digit run must '
+    'plan.num_tests < new last_test, lineno+1 once, and the retention clause (if a test number is used only for last_test, the running maximum, the plan bound and the Test event, duplicates with count == maximum cannot be reported); R4 int() fed by a capture group whose language is an unbounded digit run must '
     'be guarded by a ValueError handler (CFG), group indices exist, optional groups / self.plan / Optional parameters are only '
     'dereferenced under a guard atom, constructor arity, no reachable raise; R5 the is_bad set and the verdict fold as decision '
     'tables over event-kind atoms with constant propagation of the verdict local. NOT decided: numeric behaviour of the counters '
@@ -112,9 +112,38 @@ class Facts:
 
     def helper(self, name: str) -> T.Optional[T.Any]:
         """A private method of the parser that parse_line / parse_test may call as a statement; its paths are spliced into the rows."""
-        if name in ('parse_line', 'parse_test', 'parse', 'parse_async'):
+        if name in ('parse_line', 'parse', 'parse_async'):
             return None
+        if name == 'parse_test' and not self.writes(name):
+            return None          # judged by its own table; only its operands matter to the caller
         return self.mod.methods(PARSER).get(name)
+
+    def text_const(self, chain: str) -> T.Optional[str]:
+        """`self._SKIP` / `TAPParser._SKIP` / a module-level NAME that folds to a text -> that text."""
+        head, _, tail = chain.rpartition('.')
+        if not hasattr(self, '_stored'):
+            self._stored = {n.attr for n in ast.walk(self.mod.tree) if isinstance(n, ast.Attribute) and isinstance(n.ctx, ast.Store)}
+        try:
+            if head in ('self', PARSER, 'cls') and tail and tail not in FORM_OF and tail not in self._stored:   # a constant, not a field with a default
+                v = self.fold(tail)
+            elif not head and self.mod.has_assign(chain):
+                v = _Folder(self.repo, self.mod).fold(self.mod.assign_value(chain))
+            else:
+                return None
+        except (AnchorMissing, Undecided):
+            return None
+        return v if isinstance(v, str) else None
+
+    def normal(self, owner: str = PARSER) -> Normal:
+        return Normal(owner, self.text_const)
+
+    def writes(self, name: str) -> T.Set[str]:
+        """Parser fields a method stores into."""
+        fn = self.mod.methods(PARSER).get(name)
+        if fn is None:
+            return set()
+        return {n.attr for n in walk_no_nested(fn) if isinstance(n, ast.Attribute) and isinstance(n.ctx, ast.Store) and n.attr in FIELDS
+                and attr_chain(n.value) == 'self'}
 
     def reach(self) -> T.Set[str]:
         """parse_line and the helpers it calls as statements (two levels), i.e. the functions the tables cover."""
@@ -279,13 +308,17 @@ class Facts:
             m, k = e.value, e.slice
         else:
             return None
-        if not (isinstance(k, ast.Constant) and isinstance(k.value, int) and not isinstance(k.value, bool)):
+        if not (isinstance(k, ast.Constant) and isinstance(k.value, (int, str)) and not isinstance(k.value, bool)):
             return None
         rn = self.match_of(m)
         if rn is None:
             return None
         for kind, (name, form) in self.forms.items():
             if name == rn:
+                if isinstance(k.value, str):        # named group (?P<name>...)
+                    if k.value not in form.names:
+                        return kind, -1, rn          # no such group: IndexError at run time (reported by R4)
+                    return kind, form.names[k.value], rn
                 return kind, k.value, rn
         return None
 
@@ -353,6 +386,30 @@ class Sections:
         if a != Atom('is', ('ARG1', 'None')):
             raise Undecided(f'parse_line: top-level test is not `line is [not] None`: {short(top.test)}')
         text, eof = (top.orelse, top.body) if v else (top.body, top.orelse)
+
+        def unwrap(owner: T.Any, blk: T.List[ast.stmt], arg_ok: T.Callable[[T.List[ast.AST]], bool]) -> T.Tuple[T.Any, T.List[ast.stmt]]:
+            """A branch that only forwards to a private generator (`yield from self._text(line)`): judge that generator's body instead."""
+            for _ in range(2):
+                if len(blk) == 1 and isinstance(blk[0], ast.Expr) and isinstance(blk[0].value, ast.YieldFrom):
+                    c = blk[0].value.value
+                    if isinstance(c, ast.Call) and isinstance(c.func, ast.Attribute) and attr_chain(c.func.value) == 'self' and not c.keywords \
+                            and f.mod.methods(PARSER).get(c.func.attr) is not None and c.func.attr not in ('parse_line', 'parse_test') and arg_ok(list(c.args)):
+                        owner = f.mod.methods(PARSER)[c.func.attr]
+                        if len(param_names(owner)) != len(c.args):
+                            break
+                        blk = [s_ for s_ in owner.body if not (isinstance(s_, ast.Expr) and isinstance(s_.value, ast.Constant))]
+                        while len(blk) == 1 and isinstance(blk[0], ast.If) and isinstance(blk[0].test, ast.Constant) and blk[0].test.value and not blk[0].orelse:
+                            blk = list(blk[0].body)
+                        continue
+                break
+            return owner, blk
+        line_name = self.line
+        fn, text = unwrap(fn, text, lambda a: len(a) == 1 and isinstance(a[0], ast.Name) and a[0].id == line_name)
+        eof_fn, eof = unwrap(f.parse_line, eof, lambda a: len(a) == 0)
+        self.text_fn, self.eof_fn = fn, eof_fn
+        ps = param_names(fn)
+        if fn is not f.parse_line:
+            self.line = next(iter(ps))
         # the ladder of `m = RE.match(line); if m:` sections
         marks: T.List[T.Tuple[int, int, str, str, ast.AST, ast.If]] = []    # (first stmt index, if index, regex, var, match expr, if)
         for i, st in enumerate(text):
@@ -382,16 +439,16 @@ class Sections:
         if sorted(kinds) != sorted(MAIN_KINDS):
             raise Undecided(f'parse_line: line-form sections found for {kinds}, expected one each of {list(MAIN_KINDS)}')
         self.match_exprs: T.List[T.Tuple[int, int, str, str, ast.AST]] = []
-        self.pre, pre_exit = build(fn, text[:marks[0][0]], 'parse_line[state, blank/diagnostic]', helpers=f.helper)
+        self.pre, pre_exit = build(fn, text[:marks[0][0]], 'parse_line[state, blank/diagnostic]', helpers=f.helper, keep_forward=('parse_test',), normal=f.normal())
         self.by_kind: T.Dict[str, Section] = {}
         for first, i, rn, var, mexpr, st in marks:
             seed = dict(pre_exit)
             seed[var] = _Sub(pre_exit, ps).visit(_copy(mexpr))
             self.match_exprs.append((first, i, rn, var, seed[var]))
-            tab, _ = build(fn, st.body, f'parse_line[{FORM_OF[rn]} line]', seed, helpers=f.helper)
+            tab, _ = build(fn, st.body, f'parse_line[{FORM_OF[rn]} line]', seed, helpers=f.helper, keep_forward=('parse_test',), normal=f.normal())
             self.by_kind[FORM_OF[rn]] = Section(FORM_OF[rn], rn, tab, st)
-        self.post, _ = build(fn, text[marks[-1][1] + 1:], 'parse_line[unknown line]', dict(pre_exit), helpers=f.helper)
-        self.eof, _ = build(fn, eof, 'parse_line[end of stream]', helpers=f.helper)
+        self.post, _ = build(fn, text[marks[-1][1] + 1:], 'parse_line[unknown line]', dict(pre_exit), helpers=f.helper, normal=f.normal())
+        self.eof, _ = build(eof_fn, eof, 'parse_line[end of stream]', helpers=f.helper, normal=f.normal())
         self.line_def = norm(pre_exit[self.line]) if self.line in pre_exit else 'ARG1'
         self.all_tables = [self.pre] + [s.table for s in self.by_kind.values()] + [self.post, self.eof]
 
@@ -476,7 +533,7 @@ def _state_atom(f: Facts, a: Atom) -> T.Optional[str]:
 def _events(f: Facts, row: Row) -> T.List[T.Tuple[str, T.Any, Eff]]:
     """The events a row yields, in order: (constructor name | 'forward:<method>' | '?', operands, effect)."""
     out: T.List[T.Tuple[str, T.Any, Eff]] = []
-    for e in row.effs():
+    for e in row.effs(own=True):     # events of spliced callees are judged by the callee's own table
         if e.kind == 'yield':
             c = f.ctor(e.value) if e.value is not None else None
             if c is not None:
@@ -575,6 +632,18 @@ def _foreign(f: Facts) -> T.Callable[[Atom, T.List[Atom]], T.Optional[str]]:
     return admit
 
 
+def _foreign_cmp(f: Facts, a: Atom) -> T.Optional[str]:
+    """A comparison of one plain parser counter with an integer constant (`self.last_test > 0`), outside the reference vocabulary:
+    admitted as a free input - the counters are independent inputs of a step (each can be zero or not whatever the others are)."""
+    th = _thresh(a, lambda x: x.startswith('self.') and x.count('.') == 1 and x[5:] in FIELDS)
+    if th is not None:
+        subj = [x for x in a.args[1:] if x.startswith('self.')][0]
+        return f'free: {subj[5:]} >= {th[0]}' if not th[1] else f'free: not {subj[5:]} >= {th[0]}'
+    if a.kind == 'cmp' and a.args[0] == 'eq' and a.args[1].startswith('self.') and a.args[1][5:] in FIELDS and _int_const(a.args[2]) is not None:
+        return f'free: {a.args[1][5:]} == {a.args[2]}'
+    return None
+
+
 class Diff(T.NamedTuple):
     rule: str
     func: str
@@ -633,9 +702,18 @@ def model(ctx: RuleCtx) -> Model:
     return T.cast(Model, m)
 
 
+def _understood(table: tables.Table) -> None:
+    """Closed world: a table is only judged when every item of every row is a condition or a plain effect (no loop, `with`, handler)."""
+    for r_ in table.rows:
+        for it in T.cast(Row, r_).items:
+            if it.eff is not None and it.eff.kind in ('loop', 'with', 'exc'):
+                raise Undecided(f'{table.name}: a row runs through a {it.eff.kind} construct (`{short(it.raw, 50)}`), which the tables do not model')
+
+
 def _split(m: Model, table: tables.Table, bad: T.List[T.Tuple[Row, T.Any, T.Any, T.Dict[str, T.Optional[bool]]]],
            rule_of: T.Dict[str, str], n: int, what: T.Dict[str, str]) -> None:
     """Attribute component-wise differences of (got, want) dicts to rules; record one ok per rule when clean."""
+    _understood(table)
     hit: T.Set[str] = set()
     # witness order: worlds in which the free (foreign) inputs are unset first - the plainest entry state
     for row, got, want, view in sorted(bad, key=lambda b: sum(1 for k, v in b[3].items() if k.startswith('free:') and v)):
@@ -693,7 +771,7 @@ def _check_operands(m: Model) -> None:
     sites: T.Dict[str, T.Tuple[ast.AST, ast.AST]] = {}
     for tab in s.all_tables:
         for r_ in tab.rows:
-            for raw, sub in T.cast(Row, r_).exprs:
+            for raw, sub, _k in T.cast(Row, r_).exprs:
                 for x in ast.walk(sub):
                     rn = f.match_of(x)
                     if rn is not None:
@@ -727,6 +805,17 @@ def _pre_sem(m: Model) -> T.Callable[[Atom], T.Optional[T.Tuple[str, bool]]]:
         th = _thresh(a, lambda x: x == 'self.version')
         if th:
             return f'version>={th[0]}', th[1]
+        if a.kind == 'cmp' and a.args[0] == 'eq' and a.args[2] in ('0', "''"):
+            x0 = _e(a.args[1])
+            if a.args[2] == '0' and isinstance(x0, ast.Call) and isinstance(x0.func, ast.Name) and x0.func.id == 'len' and len(x0.args) == 1:
+                x0 = x0.args[0]
+            elif a.args[2] == '0':
+                x0 = None
+            if x0 is not None and _line_text(s, norm(x0)) == 'stripped':
+                return 'blank', False
+        th0 = _thresh(a, lambda x: x.startswith('len(') and _line_text(s, x[4:-1]) == 'stripped')
+        if th0 and th0[0] == 1:
+            return 'blank', not th0[1]
         t = _truthy(a)
         if t is None:
             return None
@@ -844,6 +933,8 @@ def _check_test(m: Model) -> None:
             return 'number beyond plan', False
         if a.kind == 'cmp' and a.args[0] == 'lt' and a.args[1] == 'self.highest_test' and _new_last(f, _e(a.args[2])):
             return 'number above highest', False
+        if a.kind == 'in' and _new_last(f, _e(a.args[0])) and a.args[1].startswith('self.') and a.args[1].count('.') == 1:
+            return 'number seen before', False
         if a.kind == 'cmp' and any(x in t for t in a.args[1:] for x in ('self.plan.num_tests', 'self.last_test', 'self.num_tests', 'self.highest_test')):
             m.diff('C18.R3', f'{tab.name}: counter comparison', f'{tab.name} tests `{a!r}`; the reference compares the new test number with the plan '
                    f'as `self.plan.num_tests < <new last_test>` (and nothing else among the counters)', sec.node)
@@ -862,7 +953,8 @@ def _check_test(m: Model) -> None:
     def ref(v: T.Dict[str, T.Optional[bool]]) -> T.Any:
         late_err = bool(v.get('plan') and v.get('late plan') and not v.get('late test seen'))
         beyond = bool(v.get('plan') and v.get('number beyond plan'))
-        return {'events': ['Error'] * late_err + ['Error'] * beyond + ['forward:parse_test'], 'late-test flag set': late_err,
+        dup = bool(v.get('number seen before'))
+        return {'events': ['Error'] * late_err + ['Error'] * dup + ['Error'] * beyond + ['forward:parse_test'], 'late-test flag set': late_err,
                 'state': '_AFTER_TEST', 'leaves by': 'return'}
 
     def got(r: Row, v: T.Dict[str, T.Optional[bool]]) -> T.Any:
@@ -870,7 +962,10 @@ def _check_test(m: Model) -> None:
         return {'events': _names(_events(f, r)), 'late-test flag set': _final(r, 'found_late_test') == 'True',
                 'state': None if fs is None else (f.state_of(fs) or fs), 'leaves by': r.outcome[0]}
     extra = [canon(_e(t), True)[0] for t in ('self.plan', 'self.plan.late', 'self.found_late_test')]
-    n, bad, holes = compare(tab, sem, ref, got, extra)
+    inner: T.Set[Atom] = set()
+    for r_ in tab.rows:
+        inner |= T.cast(Row, r_).inner_atoms()
+    n, bad, holes = compare(tab, sem, ref, got, extra, inner=inner)
     _split(m, tab, bad, {'events': 'C18.R2', 'late-test flag set': 'C18.R2', 'state': 'C18.R1', 'leaves by': 'C18.R2'}, n,
            {'C18.R1': 'every row ends in AFTER_TEST', 'C18.R2': 'events (late-plan error once, beyond-plan error, subtest) and the late-test flag'})
     # R3: effect shapes, row by row
@@ -908,6 +1003,7 @@ def _check_test(m: Model) -> None:
     if not probs:
         m.ok('C18.R3', f'{tab.name}: on all {len(tab.rows)} rows num_tests := num_tests + 1, last_test := last_test + 1 if the number group is None '
                        f'else int(group), highest_test := max(highest_test, new last_test), the subtest carries the new last_test')
+    _check_retention(m, tab, sec)
     # R2: operands of the forwarded subtest
     oprob: T.Dict[str, ast.AST] = {}
     for r_ in tab.rows:
@@ -930,6 +1026,74 @@ def _check_test(m: Model) -> None:
         m.diff('C18.R2', f'{tab.name}: subtest operands', f'{tab.name}: {msg}', node)
     if not oprob:
         m.ok('C18.R2', f'{tab.name}: parse_test receives (<status> == \'ok\', number, <name>, <directive>, <explanation>) by group role')
+
+
+def _check_retention(m: Model, tab: tables.Table, sec: Section) -> None:
+    """K3 (what can a test number influence?): "duplicate or missing numbers produce an error" needs some error to depend on more
+    of the numbers seen than their count and their maximum.  Enumerate every use of the new test number on the test-line rows
+    (conditions, field updates, calls) and every use of the number-derived fields at end of stream.  If the only uses are
+    `last_test := number` (overwritten by the next line), `highest_test := max(highest_test, number)`, the comparison with
+    plan.num_tests and the Test event itself, then `ok 1, ok 1, ok 3` and `ok 1, ok 2, ok 3` leave the parser in the same state
+    and produce the same errors: a duplicate (and the number it displaces) cannot be reported.  Any other use (a set of seen
+    numbers, a comparison with the previous number, ...) makes this clause silent - it never guesses what that use achieves."""
+    f = m.f
+    uses: T.Dict[str, ast.AST] = {}
+    other: T.List[str] = []
+    nrows = 0
+    for r_ in tab.rows:
+        r = T.cast(Row, r_)
+        lt = r.final.get('self.last_test')
+        if lt is None or _new_last(f, lt) is None:
+            return                      # the shape of the new number is not understood here (reported / undecided elsewhere)
+        nl = norm(lt)
+        nrows += 1
+        explicit = [norm(x) for x in ast.walk(lt) if _is_int_of(f, x, 'test')]
+        if not explicit:
+            continue                    # a row without an explicit number
+
+        def reads(e: T.Optional[ast.AST]) -> bool:
+            t = norm(e) if e is not None else ''
+            return nl in t or any(x in t for x in explicit)
+        for a in r.conds:
+            t = ' '.join(str(x) for x in a.args)
+            if nl in t or any(x in t for x in explicit):
+                if a.kind == 'cmp' and a.args[0] == 'lt' and a.args[1] == 'self.plan.num_tests' and a.args[2] == nl:
+                    uses['compared with plan.num_tests'] = sec.node
+                elif a.kind == 'cmp' and a.args[0] == 'lt' and a.args[1] == 'self.highest_test' and a.args[2] == nl:
+                    uses['running maximum'] = sec.node
+                elif _truthy(a) is not None and f.role_ref(_truthy(a)[0], 'test', 'digits'):   # type: ignore[index]
+                    pass                # is there an explicit number at all
+                else:
+                    other.append(f'condition `{a!r}`')
+        for chain, val in r.final.items():
+            if not reads(val):
+                continue
+            if chain == 'self.last_test':
+                uses['last_test := number (overwritten by the next test line)'] = sec.node
+            elif chain == 'self.highest_test' and ((isinstance(val, ast.Call) and norm(val.func) == 'max') or norm(val) == nl):
+                uses['running maximum'] = sec.node
+            else:
+                other.append(f'{chain} := `{short(val, 60)}`')
+        for e in r.effs(own=True):
+            if e.kind == 'call' and reads(e.value):
+                other.append(f'call `{short(e.value, 60)}`')
+            if e.kind in ('yield', 'yieldfrom') and reads(e.value):
+                uses['the Test event itself'] = e.raw
+    if not nrows or not uses:
+        return
+    # end of stream: which number-derived fields are read there
+    for r_ in m.s.eof.rows:
+        for a in r_.conds:
+            t = ' '.join(str(x) for x in a.args)
+            if 'self.last_test' in t or ('self.highest_test' in t and not {a.args[1], a.args[2]} <= {'self.highest_test', 'self.num_tests'}):
+                other.append(f'end-of-stream condition `{a!r}`')
+    if other:
+        m.ok('C18.R3', f'{tab.name}: test numbers are also used by {sorted(set(other))[:3]}: more than count and maximum is retained')
+        return
+    m.diff('C18.R3', 'test numbers: only their count and maximum are retained',
+           f'the explicit number of a test line is used only as: {sorted(uses)}; end of stream compares highest_test with num_tests. So the streams '
+           f'`ok 1, ok 1, ok 3` and `ok 1, ok 2, ok 3` reach the same parser state and yield the same events: a duplicate number (and the '
+           f'number it displaces) produces no Error event (property: "duplicate or missing numbers ... each produce an error")', sec.node)
 
 
 def _bind_call(fn: T.Any, call: ast.Call) -> T.Optional[T.List[ast.AST]]:
@@ -966,6 +1130,29 @@ def _skip_prefix(f: Facts, x: ast.AST, kind: str) -> bool:
     return (recv.func.attr, x.args[0].value) in (('upper', 'SKIP'), ('lower', 'skip'), ('casefold', 'skip'))
 
 
+def _under(expr: ast.AST, view: T.Dict[str, T.Optional[bool]], sem: T.Callable[[Atom], T.Optional[T.Tuple[str, bool]]]) -> T.Optional[bool]:
+    """Truth value of a boolean operand in a world of the table's atoms (and/or/not/constants over atoms of the vocabulary); None = not decided by the world."""
+    if isinstance(expr, ast.Constant) and isinstance(expr.value, bool):
+        return expr.value
+    if isinstance(expr, ast.UnaryOp) and isinstance(expr.op, ast.Not):
+        v = _under(expr.operand, view, sem)
+        return None if v is None else not v
+    if isinstance(expr, ast.BoolOp):
+        vals = [_under(x, view, sem) for x in expr.values]
+        is_and = isinstance(expr.op, ast.And)
+        if any(v is (not is_and) for v in vals):
+            return not is_and
+        return None if any(v is None for v in vals) else is_and
+    if isinstance(expr, ast.Call) and isinstance(expr.func, ast.Name) and expr.func.id == 'bool' and len(expr.args) == 1:
+        return _under(expr.args[0], view, sem)
+    a, pol = canon(expr, True)
+    s_ = sem(a)
+    if s_ is None or view.get(s_[0]) is None:
+        return None
+    truth = bool(view[s_[0]]) != s_[1]
+    return truth if pol else not truth
+
+
 def _untouched(m: Model, tab: tables.Table, fields: T.Dict[str, str]) -> None:
     for fld, rule in fields.items():
         rows = [r for r in tab.rows if ('self.' + fld) in T.cast(Row, r).final]
@@ -986,10 +1173,19 @@ def _check_plan(m: Model) -> None:
             return f'count>={th[0]}', th[1]
         if a.kind == 'cmp' and a.args[0] == 'eq' and a.args[2] == '0' and _is_int_of(f, _e(a.args[1]), 'plan'):
             return 'count>=1', True
+        th = _thresh(a, lambda x: x == 'self.num_tests')
+        if th and th[0] == 1:
+            return 'tests seen', th[1]
+        if a.kind == 'cmp' and a.args[0] == 'eq' and a.args[1] == 'self.num_tests' and a.args[2] == '0':
+            return 'tests seen', True
         t = _truthy(a)
         if t is None:
             return None
         x, flip = t
+        if norm(x) == 'self.num_tests':
+            return 'tests seen', flip
+        if _is_int_of(f, x, 'plan'):
+            return 'count>=1', flip
         if norm(x) == 'self.plan':
             return 'plan seen', flip
         if f.role_ref(x, 'plan', 'directive'):
@@ -1010,7 +1206,8 @@ def _check_plan(m: Model) -> None:
         skip = bool(v.get('directive') and v.get('SKIP directive'))
         errs = int(bool(skip and v.get('count>=1'))) + int(bool(v.get('directive') and not v.get('SKIP directive')))
         return {'events': ['Error'] * errs + ['Plan'], 'leaves by': 'return',
-                'plan': ('num_tests=int(count group)', 'late=(num_tests > 0)', 'skipped=True' if skip else 'skipped=(count == 0)', 'explanation=text group', 'yielded')}
+                'plan': ('num_tests=int(count group)', f'late={bool(v.get("tests seen"))}', f'skipped={bool(skip or not v.get("count>=1"))}',
+                         'explanation=text group', 'yielded')}
 
     def got(r: Row, v: T.Dict[str, T.Optional[bool]]) -> T.Any:
         evs = _events(f, r)
@@ -1022,23 +1219,50 @@ def _check_plan(m: Model) -> None:
                 desc = 'self.plan := ' + short(p, 80)
             else:
                 ops = c[1]
-                la, lv = canon(ops['late'], True)
-                sa_, sv = canon(ops['skipped'], True)
-                late = 'late=(num_tests > 0)' if (la == Atom('cmp', ('lt', '0', 'self.num_tests')) and lv) else 'late=' + short(ops['late'], 40)
-                if isinstance(ops['skipped'], ast.Constant) and ops['skipped'].value is True:
-                    sk = 'skipped=True'
-                elif sa_.kind == 'cmp' and sa_.args[0] == 'eq' and sa_.args[2] == '0' and _is_int_of(f, _e(sa_.args[1]), 'plan') and sv:
-                    sk = 'skipped=(count == 0)'
-                else:
-                    sk = 'skipped=' + short(ops['skipped'], 40)
+                lv_, sv_ = _under(ops['late'], v, sem_all), _under(ops['skipped'], v, sem_all)
+                if lv_ is None or sv_ is None:
+                    raise Undecided(f'{tab.name}: the late / skipped operand of the plan is not a boolean over the conditions of the table: '
+                                    f'late=`{short(ops["late"], 50)}`, skipped=`{short(ops["skipped"], 50)}`')
+                late, sk = f'late={lv_}', f'skipped={sv_}'
+
                 yielded = any(n == 'Plan' and norm(e.value) == norm(p) for n, _, e in evs)
                 desc = ('num_tests=int(count group)' if _is_int_of(f, ops['num_tests'], 'plan') else 'num_tests=' + short(ops['num_tests'], 40), late, sk,
                         'explanation=text group' if f.role_ref(ops['explanation'], 'plan', 'text') else 'explanation=' + short(ops['explanation'], 40),
                         'yielded' if yielded else 'a different plan is yielded')
         return {'events': _names(evs), 'plan': desc, 'leaves by': r.outcome[0]}
     didx = next(i for i, r in f.forms['plan'][1].roles.items() if r == 'directive')
-    extra = [canon(_e('self.plan'), True)[0], canon(_e(f'self.{sec.regex}.match({s.line_def}).group({didx})'), True)[0]]
-    n, bad, _ = compare(tab, sem_or_free, ref, got, extra)
+    cidx = next(i for i, r in f.forms['plan'][1].roles.items() if r == 'digits')
+
+    def leaves(e: ast.AST) -> T.List[Atom]:
+        if isinstance(e, ast.UnaryOp) and isinstance(e.op, ast.Not):
+            return leaves(e.operand)
+        if isinstance(e, ast.BoolOp):
+            return [a for x in e.values for a in leaves(x)]
+        if isinstance(e, ast.Constant):
+            return []
+        if isinstance(e, ast.Call) and isinstance(e.func, ast.Name) and e.func.id == 'bool' and len(e.args) == 1:
+            return leaves(e.args[0])
+        return [canon(e, True)[0]]
+    operand_atoms: T.List[Atom] = []      # conditions that only occur inside the late / skipped operands of the recorded plan
+    for r_ in tab.rows:
+        p_ = T.cast(Row, r_).final.get('self.plan')
+        c_ = f.ctor(p_) if p_ is not None else None
+        if c_ is not None and not c_[2]:
+            operand_atoms += leaves(c_[1]['late']) + leaves(c_[1]['skipped'])
+    free_names: T.Dict[Atom, str] = {}
+    fadmit = _foreign(f)
+
+    def sem_all(a: Atom) -> T.Optional[T.Tuple[str, bool]]:
+        r = sem_or_free(a)
+        if r is None and a in operand_atoms:
+            nm = fadmit(a, [b for b in list(tab.atoms()) + operand_atoms if b != a]) if _truthy(a) else _foreign_cmp(f, a)
+            if nm is not None:
+                free_names[a] = nm
+                return nm, False
+        return r
+    extra = list(dict.fromkeys(operand_atoms)) + [canon(_e('self.plan'), True)[0], canon(_e(f'self.{sec.regex}.match({s.line_def}).group({didx})'), True)[0],
+             canon(_e('self.num_tests > 0'), True)[0], canon(_e(f'int(self.{sec.regex}.match({s.line_def}).group({cidx})) > 0'), True)[0]]
+    n, bad, _ = compare(tab, sem_all, ref, got, extra)
     _split(m, tab, bad, {'events': 'C18.R2', 'plan': 'C18.R2', 'leaves by': 'C18.R2'}, n, {'C18.R2': 'events and the recorded plan (count, late, skipped, explanation)'})
     _untouched(m, tab, {'state': 'C18.R1', 'num_tests': 'C18.R3', 'last_test': 'C18.R3', 'highest_test': 'C18.R3'})
 
@@ -1133,6 +1357,12 @@ def _check_eof(m: Model) -> None:
                     if a.args[0] == 'eq':
                         return f'{nx}=={ny}', False
                     return (f'{nx}<{ny}', False) if a.args[1] == x else (f'{nx}>{ny}', False)
+            # the number of distinct test numbers seen (a collection field the test lines add to) against the count
+            coll = [x for x in a.args[1:] if x.startswith('len(self.') and x.endswith(')') and x[9:-1] not in FIELDS and x[9:-1].isidentifier()]
+            if len(coll) == 1 and 'self.num_tests' in a.args[1:]:
+                if a.args[0] == 'eq':
+                    return 'distinct==count', False
+                return ('distinct<count', False) if a.args[1] == coll[0] else ('distinct>count', False)
             return None
         t = _truthy(a)
         if t is not None and norm(t[0]) in ('self.bailed_out', 'self.plan'):
@@ -1144,15 +1374,17 @@ def _check_eof(m: Model) -> None:
         if not v.get('bailed out'):
             if v.get('plan') and not v.get('count==plan'):
                 errs += 1
-            elif not v.get('highest==count'):
-                errs += 1
+            elif not v.get('highest==count') or v.get('distinct==count') is False or v.get('distinct<count') or v.get('distinct>count'):
+                errs += 1       # duplicate / missing numbers (a parser that also counts the distinct numbers may report more of them)
         return {'events': ['Error'] * errs, 'fields written': []}
 
     def got(r: Row, v: T.Dict[str, T.Optional[bool]]) -> T.Any:
         return {'events': _names(_events(f, r)), 'fields written': sorted(r.final)}
     extra = [canon(_e(t), True)[0] for t in (f'self.state == self.{f.state_names["_YAML"]}', 'self.bailed_out', 'self.plan', 'self.num_tests == self.plan.num_tests',
                                              'self.highest_test == self.num_tests')]
-    n, bad, _ = compare(tab, sem, ref, got, extra, foreign=_foreign(f))
+    n, bad, _ = compare(tab, sem, ref, got, extra, foreign=_foreign(f),
+                        consistent=lambda v: not (v.get('distinct==count') and (v.get('distinct<count') or v.get('distinct>count')))
+                        and not (v.get('distinct<count') and v.get('distinct>count')))
     _split(m, tab, bad, {'events': 'C18.R2', 'fields written': 'C18.R2'}, n,
            {'C18.R2': 'errors (open YAML block; silent after bail-out; plan/count mismatch; duplicate/missing numbers)'})
 
@@ -1163,7 +1395,7 @@ def _check_parse_test(m: Model) -> None:
     qn = f'{PARSER}.parse_test'
     if len(param_names(fn)) != 5:
         raise Undecided(f'{qn}: expected (ok, num, name, directive, explanation)')
-    tab, _ = build(fn, fn.body, 'parse_test', helpers=f.helper)
+    tab, _ = build(fn, fn.body, 'parse_test', helpers=f.helper, normal=f.normal())
     ups = {'ARG4.upper()': ('SKIP', "'TODO'"), 'ARG4.lower()': ('skip', "'todo'"), 'ARG4.casefold()': ('skip', "'todo'")}
 
     def word(recv: str, const: T.Any, prefix: bool, node_text: str) -> T.Optional[str]:
@@ -1261,7 +1493,7 @@ def _check_parse_test(m: Model) -> None:
 def _state_flow(f: Facts) -> T.Tuple[CFG, T.Dict[int, T.FrozenSet[int]]]:
     """Constant propagation of self.state over {_MAIN, _AFTER_TEST, _YAML} on the CFG of parse_line, refined on the
     true/false edges of `self.state ==/!= <constant>` tests.  Returns the set of possible states on entry of every node."""
-    fn = f.parse_line
+    fn = f.sections().text_fn
     cfg = CFG(fn)
     allv = frozenset(f.states.values())
 
@@ -1286,6 +1518,22 @@ def _state_flow(f: Facts) -> T.Tuple[CFG, T.Dict[int, T.FrozenSet[int]]]:
         if isinstance(st, (ast.AugAssign, ast.AnnAssign)) and attr_chain(st.target) == 'self.state':
             return ast.Constant(value='?')
         return None
+    def call_writes(st: ast.AST) -> T.Optional[T.FrozenSet[int]]:
+        """States a statement may leave behind through calls of parser methods that store into self.state (may-write)."""
+        out: T.Set[int] = set()
+        hit = False
+        for c in ast.walk(st):
+            if isinstance(c, ast.Call) and isinstance(c.func, ast.Attribute) and attr_chain(c.func.value) == 'self' and 'state' in f.writes(c.func.attr):
+                hit = True
+                callee = f.mod.methods(PARSER)[c.func.attr]
+                for n in walk_no_nested(callee):
+                    w = writes_state(n)
+                    if w is not None:
+                        k = const_of(w)
+                        if k is None:
+                            raise Undecided(f'{c.func.attr}: self.state is assigned `{short(w)}`, not one of the three state constants')
+                        out.add(k)
+        return frozenset(out) if hit else None
     IN: T.Dict[int, T.FrozenSet[int]] = {cfg.entry.id: allv}
     work = [cfg.entry.id]
     while work:
@@ -1306,6 +1554,10 @@ def _state_flow(f: Facts) -> T.Tuple[CFG, T.Dict[int, T.FrozenSet[int]]]:
                         t = state_test(node.ast.test)
                         if t is not None:
                             out = (s_in & {t[0]}) if t[1] else (s_in - {t[0]})
+                    else:
+                        cw = call_writes(node.ast)
+                        if cw is not None:
+                            out = s_in | cw
                 elif node.kind == 'test' and label in (True, False):
                     t = state_test(node.ast.test)   # type: ignore[union-attr]
                     if t is not None:
@@ -1335,11 +1587,11 @@ def r1(ctx: RuleCtx) -> None:
             if isinstance(n, ast.Attribute) and isinstance(n.ctx, ast.Store) and n.attr in FIELDS and attr_chain(n.value) == 'self':
                 writers.append((name, n))
     reach = f.reach()
-    outside = sorted({f'{name} writes self.{n.attr}' for name, n in writers if name not in reach or (n.attr == 'state' and name != 'parse_line')})
+    outside = sorted({f'{name} writes self.{n.attr}' for name, n in writers if name not in reach})
     if outside:
-        raise Undecided(f'parser fields are written outside parse_line and the helpers spliced into its tables (state: outside parse_line): {"; ".join(outside)}')
+        raise Undecided(f'parser fields are written outside parse_line and the methods spliced into its tables: {"; ".join(outside)}')
     nstate = sum(1 for _, n in writers if n.attr == 'state')
-    ctx.floor('writes of self.state', nstate, 4)
+    ctx.floor('writes of self.state', nstate, 2)
     ctx.ok(f'all {len(writers)} writes of the parser fields ({nstate} of self.state) are in {sorted(reach)}: the tables describe every transition')
     # constant propagation of state on the CFG
     cfg, IN = _state_flow(f)
@@ -1369,7 +1621,7 @@ def r1(ctx: RuleCtx) -> None:
             ctx.require(not badv, 'a YAML block is entered only from AFTER_TEST (states reaching the assignment: '
                         f'{sorted(names[x] for x in s_in)})', mod, f'{PARSER}.parse_line', st,
                         f'state := _YAML is reachable from state {badv}: YAML blocks are only accepted directly after a test line', st)
-    ctx.floor('state assertions', n_assert, 1)
+    ctx.floor('state assertions', n_assert, 0)
     ctx.floor('YAML entries', n_yaml, 1)
     m = model(ctx)
     m.emit(ctx, 'C18.R1')
@@ -1421,7 +1673,7 @@ def r2(ctx: RuleCtx) -> None:
 def r3(ctx: RuleCtx) -> None:
     m = model(ctx)
     m.emit(ctx, 'C18.R3')
-    ctx.floor('rows of the test-line table', len(m.s.by_kind['test'].table.rows), 7)
+    ctx.floor('rows of the test-line table', len(m.s.by_kind['test'].table.rows), 3)
     for tab in (m.s.by_kind['plan'].table, m.s.by_kind['bailout'].table, m.s.by_kind['version'].table, m.s.post, m.s.eof):
         if not any(d.rule == 'C18.R3' and d.construct.startswith(tab.name) for d in m.diffs):
             ctx.ok(f'{tab.name}: num_tests / last_test / highest_test are not written ({len(tab.rows)} rows)')
@@ -1442,7 +1694,19 @@ def _driver(ctx: RuleCtx, mod: Module, q: str) -> None:
     if len(outer) != 1 or not isinstance(outer[0].target, ast.Name):
         raise Undecided(f'{qn}: expected one loop over the input lines')
     loop = outer[0]
-    if norm(loop.iter) != ps[0]:
+    # what the loop iterates: the input itself, or itertools.chain(<input>, <constant tuple>) whose None items are end-of-stream markers
+    sentinels = 0
+    it = loop.iter
+    if isinstance(it, ast.Call) and (call_name(it) or '').split('.')[-1] == 'chain' and len(it.args) == 2 and not it.keywords and norm(it.args[0]) == ps[0]:
+        extra = it.args[1]
+        if isinstance(extra, ast.Name):      # a local bound once to a display
+            defs_ = [st.value for st in ast.walk(fn) if isinstance(st, (ast.Assign, ast.AnnAssign)) and st.value is not None
+                     and any(isinstance(t, ast.Name) and t.id == extra.id for t in (st.targets if isinstance(st, ast.Assign) else [st.target]))]
+            extra = defs_[0] if len(defs_) == 1 else extra
+        if not (isinstance(extra, (ast.Tuple, ast.List)) and all(isinstance(x, ast.Constant) and x.value is None for x in extra.elts)):
+            raise Undecided(f'{qn}: the loop iterates `{short(it)}`; the appended items are not a display of None markers')
+        sentinels = len(extra.elts)
+    elif norm(it) != ps[0]:
         raise Undecided(f'{qn}: the loop does not iterate the input itself: {short(loop.iter)}')
     pm = mod.parent_map()
     others = sorted({call_name(c) or '' for c in ast.walk(fn) if isinstance(c, ast.Call) and (call_name(c) or '').startswith('self.')
@@ -1497,10 +1761,18 @@ def _driver(ctx: RuleCtx, mod: Module, q: str) -> None:
                     raise Undecided(f'{qn}: cannot follow what happens to the events of `{short(c)}`')
                 ctx.violation(mod, qn, c, f'the events of `{short(c)}` are dropped (not yielded to the caller)', c)
         iters = sum(1 for e in p.events if e.kind == 'iter' and e.node is loop and e.val == 'iter')
-        if not (p.outcome in ('fall', 'return') and seq == ['line'] * iters + ['EOF']):
-            ctx.violation(mod, qn, f'path with {iters} line(s)', f'for {iters} input line(s) the calls are {seq} (leaving by {p.outcome}); '
-                          f'expected {["line"] * iters + ["EOF"]}', fn)
-    ctx.ok(f'{qn}: {n} paths: each line is passed to parse_line in order, then exactly one parse_line(None), all events yielded')
+        if any(x.startswith('?') for x in seq):
+            raise Undecided(f'{qn}: parse_line is called with {seq}: an operand that is neither the loop variable nor None')
+        # with a None marker chained to the input, the marker is the last item the loop passes on; every path of the enumeration
+        # that iterates at least once stands for "k lines, then the marker(s)"
+        want = ['line'] * iters + ['EOF'] * (0 if sentinels else 1)
+        if sentinels and iters == 0:
+            continue
+        if not (p.outcome in ('fall', 'return') and seq == want and sentinels <= 1):
+            ctx.violation(mod, qn, f'path with {iters} line(s)', f'for {iters} input line(s) the calls are {seq} plus {sentinels} chained None marker(s) '
+                          f'(leaving by {p.outcome}); expected every line in order, then exactly one end-of-stream call', fn)
+    ctx.ok(f'{qn}: {n} paths: each line is passed to parse_line in order, then exactly one parse_line(None)'
+           + (' (a None marker chained to the input)' if sentinels else '') + ', all events yielded')
 
 
 def _body_nodes(fn: T.Any) -> T.Iterator[ast.AST]:
@@ -1606,7 +1878,7 @@ def r4(ctx: RuleCtx) -> None:
     m = model(ctx)
     f = m.f
     mod = f.mod
-    pt_tab, _ = build(f.parse_test, f.parse_test.body, 'parse_test', helpers=f.helper)
+    pt_tab, _ = build(f.parse_test, f.parse_test.body, 'parse_test', helpers=f.helper, normal=f.normal())
     all_tabs: T.List[T.Tuple[str, tables.Table]] = [(f'{PARSER}.parse_line', t) for t in m.s.all_tables] + [(f'{PARSER}.parse_test', pt_tab)]
     # (1) int() fed by a capture group whose language is an unbounded digit run
     seen_args: T.Dict[int, T.Dict[str, ast.AST]] = {}
@@ -1636,6 +1908,8 @@ def r4(ctx: RuleCtx) -> None:
                 raise Undecided(f'{qn}: `{short(n)}` is on no row of the decision tables')
             for text, arg in args.items():
                 ref = f.group_ref(arg)
+                if ref is not None and ref[1] not in f.forms[ref[0]][1].roles:
+                    continue     # no such group: reported below as an IndexError
                 if ref is None or f.role(ref) != 'digits':
                     raise Undecided(f'{qn}: int() of `{short(arg, 70)}`, which is not a digits-only capture group of a line-form pattern')
                 kind, idx, rn = ref
@@ -1647,8 +1921,8 @@ def r4(ctx: RuleCtx) -> None:
                             f'int() of the {kind}-line number ({rn} group {idx})',
                             f'`{short(n, 60)}` converts {rn} group {idx}; {fact}, int() raises ValueError beyond {INT_MAX_STR_DIGITS} digits and no handler '
                             f'catches it: the exception leaves parse_line / parse', n)
-    ctx.floor('int() sites', n_int, 3)
-    ctx.floor('assert sites', n_assert, 1)
+    ctx.floor('int() sites', n_int, 1)
+    ctx.floor('assert sites', n_assert, 0)
     # the assertion(s): discharged by the constant propagation of R1
     cfg1, IN = _state_flow(f)
     for node in cfg1.nodes:
@@ -1679,9 +1953,7 @@ def r4(ctx: RuleCtx) -> None:
             return norm(v) == 'self.plan' or (in_pt and norm(v) in opt_params)
         for r_ in tab.rows:
             r = T.cast(Row, r_)
-            pos = {id(it.raw): k for k, it in reversed(list(enumerate(r.items)))}
-            for raw, sub in r.exprs:
-                upto = pos.get(id(raw), len(r.items))
+            for raw, sub, upto in r.exprs:
                 known: T.Dict[str, bool] = {}
                 for it in r.items[:upto]:
                     if it.atom is not None:
@@ -1710,7 +1982,7 @@ def r4(ctx: RuleCtx) -> None:
     if not probs:
         ctx.ok(f'{n_grp} capture-group reads name existing groups; {n_deref} dereferences of optional groups / self.plan / Optional parameters are guarded on '
                f'their row; {n_ctor} event constructors get exactly their fields')
-    ctx.floor('capture-group reads on rows', n_grp, 20)
+    ctx.floor('capture-group reads on rows', n_grp, 5)
     # (5) no explicit raise is reachable; the drivers contain no partial operation of their own
     for q in ['parse_line', 'parse_test', 'parse', 'parse_async'] + sorted(f.reach() - {'parse_line'}):
         fn = mod.func(f'{PARSER}.{q}')
@@ -1723,10 +1995,12 @@ def r4(ctx: RuleCtx) -> None:
             ctx.ok(f'{PARSER}.{q}: no reachable raise statement leaves the function ({len(cfg.nodes)} CFG nodes)')
     for q in ('parse', 'parse_async'):
         fn = mod.func(f'{PARSER}.{q}')
+        safe = ('self.parse_line', 'itertools.chain', 'chain', 'iter')
         partial = [n for n in _body_nodes(fn) if isinstance(n, (ast.Subscript, ast.Assert))
-                   or (isinstance(n, ast.Call) and call_name(n) not in ('self.parse_line',))]
-        ctx.require(not partial, f'{PARSER}.{q}: only iterates its input and calls parse_line', mod, f'{PARSER}.{q}', fn,
-                    f'{q} contains operations of its own that can raise: {[short(x, 40) for x in partial]}')
+                   or (isinstance(n, ast.Call) and call_name(n) not in safe)]
+        if partial:     # not a finding: the pack simply does not know whether these can raise
+            raise Undecided(f'{PARSER}.{q} contains operations of its own the inventory does not classify: {[short(x, 40) for x in partial]}')
+        ctx.ok(f'{PARSER}.{q}: only iterates its input (possibly chained with constant markers) and calls parse_line')
 
 
 # ----------------------------------------------------------------------------------------------
@@ -1748,10 +2022,31 @@ def _bad_set(mod: Module) -> T.Set[str]:
     body = [s for s in fn.body if not (isinstance(s, ast.Expr) and isinstance(s.value, ast.Constant))]
     if len(body) == 1 and isinstance(body[0], ast.Return) and isinstance(body[0].value, ast.Compare):
         c = body[0].value
-        if len(c.ops) == 1 and isinstance(c.ops[0], ast.In) and norm(c.left) == 'self' and isinstance(c.comparators[0], (ast.Set, ast.Tuple, ast.List)):
-            names = [_enum(x) for x in c.comparators[0].elts]
-            if all(names):
-                return set(T.cast(T.List[str], names))
+        if len(c.ops) == 1 and isinstance(c.ops[0], ast.In) and norm(c.left) == 'self':
+            coll = c.comparators[0]
+            if isinstance(coll, ast.Call) and isinstance(coll.func, ast.Name) and coll.func.id in ('frozenset', 'set', 'tuple') and len(coll.args) == 1:
+                coll = coll.args[0]
+            if isinstance(coll, (ast.Name, ast.Attribute)):       # a named constant table: fold it (policy form c)
+                from ..consteval import fold_expr, EnumMember
+                try:
+                    vals = fold_expr(mod.repo, mod, coll)
+                except Undecided:
+                    vals = None
+                if isinstance(vals, (set, frozenset, tuple, list)) and all(isinstance(v, EnumMember) and v.cls == 'TestResult' for v in vals):
+                    return {v.name for v in vals}
+            if isinstance(coll, (ast.Set, ast.Tuple, ast.List)):
+                names = [_enum(x) for x in coll.elts]
+                if all(names):
+                    return set(T.cast(T.List[str], names))
+    if len(body) == 1 and isinstance(body[0], ast.Return) and isinstance(body[0].value, ast.BoolOp) and isinstance(body[0].value.op, ast.Or):
+        names = []
+        for x in body[0].value.values:      # self is A or self is B ...
+            if isinstance(x, ast.Compare) and len(x.ops) == 1 and isinstance(x.ops[0], (ast.Is, ast.Eq)) and norm(x.left) == 'self':
+                names.append(_enum(x.comparators[0]))
+            else:
+                names.append(None)
+        if names and all(names):
+            return set(T.cast(T.List[str], names))
     raise Undecided('TestResult.is_bad is not `return self in {<members>}`')
 
 
@@ -1760,18 +2055,32 @@ def _all_rows(tab: tables.Table, sem: T.Any, got: T.Any, extra: T.List[Atom], co
     return [(r, g, v) for r, g, _, v in rows]
 
 
-def _is_allskip(e: ast.AST) -> bool:
-    """`all(<x>.result is TestResult.SKIP for <x> in self.results)`"""
-    if not (isinstance(e, ast.Call) and isinstance(e.func, ast.Name) and e.func.id == 'all' and len(e.args) == 1 and isinstance(e.args[0], ast.GeneratorExp)):
-        return False
+def _is_allskip(e: ast.AST) -> T.Optional[bool]:
+    """`all(<x>.result is TestResult.SKIP for <x> in self.results)` -> True;
+    `any(<x>.result is not TestResult.SKIP for <x> in self.results)` -> False (its negation); anything else -> None."""
+    if not (isinstance(e, ast.Call) and isinstance(e.func, ast.Name) and e.func.id in ('all', 'any') and len(e.args) == 1
+            and isinstance(e.args[0], (ast.GeneratorExp, ast.ListComp))):
+        return None
     g = e.args[0]
+    pos = e.func.id == 'all'
     if len(g.generators) != 1 or g.generators[0].ifs or attr_chain(g.generators[0].iter) != 'self.results' or not isinstance(g.generators[0].target, ast.Name):
-        return False
+        return None
     v = g.generators[0].target.id
     c = g.elt
-    if not (isinstance(c, ast.Compare) and len(c.ops) == 1 and isinstance(c.ops[0], (ast.Is, ast.Eq))):
+    if isinstance(c, ast.UnaryOp) and isinstance(c.op, ast.Not):
+        c, pos2 = c.operand, False
+    else:
+        pos2 = True
+    if not (isinstance(c, ast.Compare) and len(c.ops) == 1 and isinstance(c.ops[0], (ast.Is, ast.Eq, ast.IsNot, ast.NotEq))):
+        return None
+    if {attr_chain(c.left), attr_chain(c.comparators[0])} != {f'{v}.result', 'TestResult.SKIP'}:
+        return None
+    elt_is_skip = isinstance(c.ops[0], (ast.Is, ast.Eq)) == pos2
+    if pos and elt_is_skip:
+        return True
+    if not pos and not elt_is_skip:
         return False
-    return {attr_chain(c.left), attr_chain(c.comparators[0])} == {f'{v}.result', 'TestResult.SKIP'}
+    return None
 
 
 def r5(ctx: RuleCtx) -> None:
@@ -1848,15 +2157,15 @@ def r5(ctx: RuleCtx) -> None:
                         raise Undecided(f'{tab.name}: `{short(v, 60)}` calls a repository method the table cannot follow (it may change the verdict)')
 
     # ---- tail: what becomes of self.res
-    ttab, _ = build(fn, tail, f'{RUNNER}.parse[after the loop]', helpers=rhelper)
+    ttab, _ = build(fn, tail, f'{RUNNER}.parse[after the loop]', helpers=rhelper, normal=f.normal(RUNNER))
     closed(ttab)
 
     def tsem(a: Atom) -> T.Optional[T.Tuple[str, bool]]:
         s = vsem(a)
         if s:
             return s
-        if a.kind == 'truth' and _is_allskip(_e(a.args[0])):
-            return 'all results SKIP', False
+        if a.kind == 'truth' and _is_allskip(_e(a.args[0])) is not None:
+            return 'all results SKIP', not _is_allskip(_e(a.args[0]))
         if a.kind in ('cmp', 'is') and 'self.res' in a.args and 'TestResult.RUNNING' in a.args and (a.kind == 'is' or a.args[0] == 'eq'):
             return 'still running', False
         reads = {n.id for n in ast.walk(_e(a.args[0] if a.kind in ('truth', 'is') else a.args[1])) if isinstance(n, ast.Name)}
@@ -1875,7 +2184,7 @@ def r5(ctx: RuleCtx) -> None:
     textra = vextra + [canon(_e('self.res == TestResult.RUNNING'), True)[0]]
     trows = _all_rows(ttab, tsem, tgot, textra,
                       lambda v: verdict_of(v) is not _NEVER and v.get('a TestResult member is truthy') in (None, True) and v.get('all results SKIP') is not None)
-    ctx.floor('worlds after the loop', len(trows), 12)
+    ctx.floor('worlds after the loop', len(trows), 4)
     protected = set()
     for x in members:
         outs = {g for _, g, v in trows if verdict_of(v) == x and v.get('all results SKIP') and v.get('still running')}
@@ -1905,7 +2214,7 @@ def r5(ctx: RuleCtx) -> None:
         ctx.ok(f'{ttab.name}: bad verdict kept, all-SKIP -> SKIP unless the verdict is in {sorted(protected)}, harness verdicts untouched '
                f'({len(trows)} worlds, {len(ttab.rows)} rows; verdict domain {domain})')
     # ---- loop body: one table per event
-    ltab, _ = build(fn, loop.body, f'{RUNNER}.parse[per event]', helpers=rhelper)
+    ltab, _ = build(fn, loop.body, f'{RUNNER}.parse[per event]', helpers=rhelper, normal=f.normal(RUNNER))
     closed(ltab)
     kinds = sorted(f.tuples)
 
@@ -1922,7 +2231,11 @@ def r5(ctx: RuleCtx) -> None:
 
     def lgot(r: Row, v: T.Dict[str, T.Optional[bool]]) -> T.Any:
         sets = [e for e in r.effs('set') if e.target == acc]
-        appended = any(e.kind == 'call' and norm(e.value) == f'self.results.append({ev})' for e in r.effs())
+        appended = any((e.kind == 'call' and norm(e.value) in (f'self.results.append({ev})', f'self.results.extend([{ev}])', f'self.results.extend(({ev},))',
+                                                                f'self.results.insert(len(self.results), {ev})'))
+                       or (e.kind == 'aug' and e.target == 'self.results' and e.op == 'Add' and norm(e.value) in (f'[{ev}]', f'({ev},)'))
+                       or (e.kind == 'set' and e.target == 'self.results' and norm(e.value) in (f'self.results + [{ev}]', f'[*self.results, {ev}]'))
+                       for e in r.effs())
         if not sets:
             return ('unchanged', appended)
         val = sets[-1].value
@@ -1938,7 +2251,7 @@ def r5(ctx: RuleCtx) -> None:
             return False
         return not res_true or v.get('bad result') in (None, res_true[0] in bad_set)    # the is_bad set is a declared finite table
     lrows = _all_rows(ltab, lsem, lgot, lextra, lconsistent)
-    ctx.floor('event-kind worlds', len(lrows), 8)
+    ctx.floor('event-kind worlds', len(lrows), 4)
     by_kind: T.Dict[str, T.List[T.Tuple[Row, T.Any, T.Dict[str, T.Optional[bool]]]]] = {}
     for r, g, v in lrows:
         k = next((k for k in kinds if v.get('is ' + k)), 'other')
@@ -1961,6 +2274,8 @@ def r5(ctx: RuleCtx) -> None:
                     msgs.setdefault(f'a subtest with a bad result leaves the verdict `{acc}` {val}', node)
             elif val != 'unchanged':
                 msgs.setdefault(f'a {k} event changes the verdict `{acc}` to {val}', node)
+            if k.startswith('Test') and not appended and any('self.results' in repr(e) for e in r.effs()):
+                raise Undecided(f'{qn}: the subtest list self.results is updated in a form the table does not understand')
             if k.startswith('Test') and not appended:
                 msgs.setdefault(f'a {k} is not appended to self.results (the all-SKIP test and the subtest list miss it)', node)
         for msg, node in msgs.items():
@@ -1976,7 +2291,7 @@ def r5(ctx: RuleCtx) -> None:
     cq = f'{RUNNER}.complete'
     supers = [s for s in cfn.body if isinstance(s, ast.Expr) and isinstance(s.value, ast.Call) and norm(s.value.func) == 'super().complete']
     ctx.require(len(supers) == 1 and cfn.body[-1] is supers[0], f'{cq}: ends with super().complete()', mod, cq, cfn, 'complete() does not end with exactly one super().complete()')
-    ctab, _ = build(cfn, cfn.body[:-1] if supers and cfn.body[-1] is supers[0] else cfn.body, cq, helpers=rhelper)
+    ctab, _ = build(cfn, cfn.body[:-1] if supers and cfn.body[-1] is supers[0] else cfn.body, cq, helpers=rhelper, normal=f.normal(RUNNER))
     closed(ctab)
 
     def csem(a: Atom) -> T.Optional[T.Tuple[str, bool]]:
@@ -2001,7 +2316,7 @@ def r5(ctx: RuleCtx) -> None:
     # atoms on self.res are decided over the members the TestResult enum declares (finite declared domain)
     tr = mod.cls('TestResult')
     declared = [t.id for st in tr.body if isinstance(st, ast.Assign) for t in st.targets if isinstance(t, ast.Name) and not t.id.startswith('_')]
-    ctx.floor('TestResult members', len(declared), 9)
+    ctx.floor('TestResult members', len(declared), 5)
     declared.sort(key=lambda x: (x not in ('SKIP', 'OK', 'EXPECTEDFAIL'), x))     # witnesses: the results a TAP run can end with first
     for r, g, v in crows:
         cands = [x for x in declared if v.get('already bad') in (None, x in bad_set)
@@ -2013,7 +2328,7 @@ def r5(ctx: RuleCtx) -> None:
             elif g not in bad_set:
                 cm.setdefault(f'non-zero exit status while self.res is {x} (not bad): self.res stays {x if g == "unchanged" else g}; '
                               f'a non-zero exit must be reported bad', cfn)
-    ctx.floor('complete() worlds', len(crows), 4)
+    ctx.floor('complete() worlds', len(crows), 2)
     for msg, node in cm.items():
         ctx.violation(mod, cq, 'exit status fold', msg, node)
     if not cm:
